@@ -38,13 +38,16 @@ def parseNode : List Sexp → Option (Nat × Node)
       | _ => none
     let isPf : Sexp → Bool := fun x => match x with | .list (.atom "pf" :: _) => true | _ => false
     let pf := ((refs.filter isPf).filterMap fun x => match x with
-      | .list [.atom "pf", a, b] => match a.asNat?, b.asNat? with
+      | .list (.atom "pf" :: a :: b :: _) => match a.asNat?, b.asNat? with
         | some a, some b => some (a, b)
         | _, _ => none
       | _ => none).headD (0, 0)
+    let deep := (refs.filter isPf).any fun x => match x with
+      | .list [.atom "pf", _, _, .atom "deep"] => true
+      | _ => false
     let rs ← (refs.filter fun x => !isExtra x && !isPf x).mapM parseRef
     pure (oid, { lab := ⟨cls, scal⟩, kind := kind, view := ⟨mcls, mscal⟩, tabs := tabs,
-                 fields := rs.map (·.2), refs := rs.map (·.1), extra := extra, pf := pf })
+                 fields := rs.map (·.2), refs := rs.map (·.1), extra := extra, pf := pf, deep := deep })
   | _ => none
 
 def parseCase : Sexp → Option Case
@@ -71,22 +74,36 @@ def showResult : Option (List Nat × St) → String
   | some (roots, st) => canon st.out roots
   | none => "error:model"
 
+/-- every admissible observation of one run: F-C04-3 applied or repaired (`deepFixed`), then every outcome of
+temporary-parent id collisions (F-C04-2; the first one is "no collision") -/
+def outcomes (deepFixed : Bool) : Option (List Nat × St) → List String
+  | some (rs, st) =>
+    let out := if deepFixed then st.out else dropDeepParent st.out
+    let cs := staleChoices out [] (subSlotsD deepFixed out)
+    (cs.take 64).map fun (ch : List (Nat × Nat)) => canon (staleParent out ch) rs
+  | none => ["error:model"]
+
 def run (s : Sexp) : String :=
   match parseCase s with
   | none => "error=bad-case"
   | some c =>
     let unmap := unmapOf c.heap
-    let roots := c.roots.take 1
-    let m := showResult (roundTrip true unmap c.heap roots)
-    let mf := showResult (roundTrip false unmap c.heap roots)
+    -- several roots: one shared ToDAOState, one explicitly passed (initially empty) FromDAOState
+    let roots := c.roots
+    let on := roundTrip true unmap c.heap roots
+    let off := roundTrip false unmap c.heap roots
+    -- F-C04-3 is repaired in /repo (fix commit 76e196d): only the repaired variants (`deepFixed`) are admissible now
+    let today := outcomes true on
+    let m := today.headD "error:model"
+    let mf := (outcomes true off).headD "error:model"
     let spec := canon c.heap roots
-    -- F-C04-2: every admissible outcome of temporary-parent id collisions (nondeterministic at run time)
-    let (stales, trig2) := match roundTrip true unmap c.heap roots with
-      | some (rs, st) =>
-        let cs := (staleChoices st.out [] (subSlots st.out)).filter (fun (ch : List (Nat × Nat)) => !ch.isEmpty)
-        (dedupStrings ((cs.take 64).map fun (ch : List (Nat × Nat)) => canon (staleParent st.out ch) rs), trigStaleParent st.out)
-      | none => ([], false)
+    let others := (dedupStrings (today.drop 1 ++ outcomes true off)).filter
+      fun x => x != m && x != mf
+    let (trig2, trig3) := match on with
+      | some (_, st) => (trigStaleParent st.out, false)
+      | none => (false, false)
     let trig := (if trigStale unmap c.heap roots then ["F-C04-1"] else []) ++ (if trig2 then ["F-C04-2"] else [])
-    let alts := "".intercalate (stales.zipIdx.map fun (p : String × Nat) => s!"\tmodel_s{p.2 + 1}={p.1}")
+      ++ (if trig3 then ["F-C04-3"] else [])
+    let alts := "".intercalate (others.zipIdx.map fun (p : String × Nat) => s!"\tmodel_s{p.2 + 1}={p.1}")
     s!"model={m}\tmodel_fixed={mf}{alts}\tspec={spec}\ttrig={",".intercalate trig}"
 end KrroodVerif.Drive.C04
